@@ -1,6 +1,6 @@
 (* The composed pointer-level operations of B/OpsB.v (the ones the correspondence runs on observed pointer
    graphs) preserve the representation invariant and act on the address list as stated. *)
-Require Export LruV.B.RepB LruV.B.OpsB.
+Require Export LruV.B.RepB LruV.B.ReallocB LruV.B.OpsB.
 
 Lemma in_removelast_in {A} (c : list A) x : In x (removelast c) -> In x c.
 Proof. intros H. apply in_removelast_tl_nodup. now left. Qed.
@@ -137,4 +137,55 @@ Proof.
         - destruct (b_move_list _ _ _ _ E) as (_ & _ & Hmv). eapply move_keeps_none; eauto. intros ->. apply Hni. now left.
         - intros Hi. apply Hni. now right. }
       apply (G pairs _ Em'); [exact Hfree|]. intros Hi. apply (Hdis a); [now right|now right].
+Qed.
+
+(* ---------- the composed operations act on the abstract entry list exactly as Layer A's list operations ----------
+   absl h l = the entries (key, value, recorded size) of the nodes of l, least-recently-used first *)
+Lemma entries_of_same_on h h' l : (forall b, In b l -> payof h' b = payof h b /\ sizeof_node h' b = sizeof_node h b) -> entries_of h' l = entries_of h l.
+Proof.
+  induction l as [|a r IH]; intros H; cbn [entries_of]; [reflexivity|].
+  destruct (H a (or_introl eq_refl)) as [Hp Hs]. rewrite (entry_at_data h h' a a Hp Hs), IH; [reflexivity|]. intros b Hb. apply H. now right.
+Qed.
+
+Lemma absl_app h a b : absl h (a ++ b) = absl h b ++ absl h a.
+Proof. unfold absl. now rewrite rev_app_distr, entries_of_app. Qed.
+Lemma absl_cons h a l : absl h (a :: l) = absl h l ++ absl h [a].
+Proof. change (a :: l) with ([a] ++ l). apply absl_app. Qed.
+Lemma absl_single h a e : entry_at h a = Some e -> absl h [a] = [e].
+Proof. unfold absl. cbn [rev app entries_of]. now intros ->. Qed.
+
+(* touch: the touched entry moves to the most-recently-used end, everything else keeps its place *)
+Theorem b_touch_abs g a g' l1 l2 e : RI (gh g) (gseal g) (glist g) -> b_touch g a = Some g' -> glist g = l1 ++ a :: l2 -> ~ In a l1 ->
+  entry_at (gh g) a = Some e ->
+  absl (gh g) (glist g) = absl (gh g) l2 ++ [e] ++ absl (gh g) l1 /\
+  absl (gh g') (glist g') = absl (gh g) l2 ++ absl (gh g) l1 ++ [e].
+Proof.
+  intros HRI Hb El Hn1 He. assert (Hin : In a (glist g)) by (rewrite El; apply in_or_app; right; now left).
+  destruct (b_touch_RI g a HRI Hin) as (g2 & Hb2 & _ & _ & Hd & _). rewrite Hb in Hb2. injection Hb2 as <-.
+  unfold b_touch in Hb. destruct (touch_ptr (gh g) (gseal g) a) as [h'|]; [|discriminate]. injection Hb as <-. cbn [gh glist] in *.
+  rewrite El, (remove_addr_split l1 a l2 Hn1). split.
+  - rewrite absl_app, absl_cons, (absl_single _ _ _ He). now rewrite <- app_assoc.
+  - rewrite absl_cons, absl_app. unfold absl. rewrite !(entries_of_same (gh g) h' _ Hd). cbn [rev app entries_of]. rewrite He. now rewrite <- app_assoc.
+Qed.
+
+(* removal: exactly that entry disappears *)
+Theorem b_remove_abs g a g' l1 l2 : RI (gh g) (gseal g) (glist g) -> b_remove g a = Some g' -> glist g = l1 ++ a :: l2 -> ~ In a l1 -> ~ In a l2 ->
+  absl (gh g') (glist g') = absl (gh g) l2 ++ absl (gh g) l1.
+Proof.
+  intros HRI Hb El Hn1 Hn2. assert (Hin : In a (glist g)) by (rewrite El; apply in_or_app; right; now left).
+  destruct (b_remove_RI g a HRI Hin) as (g2 & Hb2 & _ & _ & _ & Hd & _). rewrite Hb in Hb2. injection Hb2 as <-.
+  assert (Hl : glist g' = l1 ++ l2).
+  { unfold b_remove in Hb. destruct (unhinge (gh g) a); [|discriminate]. injection Hb as <-. cbn [glist]. rewrite El. now apply remove_addr_split. }
+  rewrite Hl, absl_app. unfold absl. f_equal; apply entries_of_same_on; intros b Hb'; apply Hd; intros ->; apply in_rev in Hb'; tauto.
+Qed.
+
+(* insertion of a new bucket at the head: one entry is appended at the most-recently-used end *)
+Theorem b_insert_new_abs g a sz k v g' : RI (gh g) (gseal g) (glist g) -> ~ In a (gseal g :: glist g) ->
+  b_insert_new g a sz (PLive k v) = Some g' ->
+  absl (gh g') (glist g') = absl (gh g) (glist g) ++ [{| ek := k; ev := v; es := sz |}].
+Proof.
+  intros HRI Hfresh Hb. destruct (b_insert_new_RI g a sz k v HRI Hfresh) as (g2 & Hb2 & _ & _ & Hl & Hp & Hs & Hd). rewrite Hb in Hb2. injection Hb2 as <-.
+  rewrite Hl, absl_cons. f_equal.
+  - unfold absl. apply entries_of_same_on. intros b Hb'. apply Hd. intros ->. apply in_rev in Hb'. apply Hfresh. now right.
+  - apply absl_single. unfold entry_at, payof, sizeof_node in *. destruct (gh g' a) as [n|]; [|discriminate]. injection Hp as Hp. injection Hs as Hs. now rewrite Hp, Hs.
 Qed.
